@@ -22,6 +22,9 @@ CONSTANT Dev
 \* base definitions: name of the text template (owned by the printer) and its slots <<slot name, kind>>
 Bases == << [tpl |-> "intRange",     slots |-> << <<"lb", "int">>, <<"ub", "int">> >>],
             [tpl |-> "intRangeExt",  slots |-> << <<"ub", "int">> >>],
+            \* bounds at the limits of 64 bits: (-2^63..0) and (1..2^63 - 1)
+            [tpl |-> "intRangeMin",  slots |-> << <<"lb", "int">> >>],
+            [tpl |-> "intRangeMax",  slots |-> << <<"ub", "int">> >>],
             [tpl |-> "octSize",      slots |-> << <<"lb", "size">>, <<"ub", "size">> >>],
             [tpl |-> "ia5Fixed",     slots |-> << <<"n", "size">> >>],
             [tpl |-> "seqOfSizeExt", slots |-> << <<"lb", "size">>, <<"ub", "size">> >>],
